@@ -430,11 +430,75 @@ def outcome(ov, v):
         return ("exc", type(e).__name__)
 
 
+def exotic_literals(rng, orc):
+    """C11 on Literal values that are not plain ints / strs: enum members with an int or str mix-in, instances of
+    subclasses of int / str (with a repr of their own), non-finite and extreme floats, big ints, strings with quotes
+    and line breaks.  Real code only: a function with Literal methods and an `object` fallback must run a Literal
+    method exactly for the values `isinstance(value, <the type the library built for the annotation>)` accepts."""
+    import enum
+    import typing
+
+    from ovld import Ovld
+    from ovld.types import normalize_type
+
+    class Color(enum.IntEnum):
+        RED = 1
+        BLUE = 2
+
+    class Tag(str, enum.Enum):
+        A = "a"
+        B = "b"
+
+    class S(str):
+        def __repr__(self):
+            return "S<" + str.__str__(self) + ">"
+
+    class MyInt(int):
+        pass
+
+    vals = [Color.RED, Color.BLUE, Tag.A, S("k"), MyInt(7), float("inf"), float("-inf"), 1e100, -0.0, 10**30, True, "quo'te\"s", "line\nbreak", 3, "b"]
+    probes = vals + [1, 2, "a", "k", 7, 2.5, None, [], 0]
+    o = orc("C11")
+    for _ in range(6):
+        nm = rng.choice([1, 1, 2, 4, 5])
+        pool = list(vals)
+        rng.shuffle(pool)
+        groups = [[pool.pop()] + ([pool.pop()] if rng.random() < 0.3 and len(pool) > nm else []) for _ in range(nm)]
+        ov = Ovld()
+        tys = []
+        try:
+            for i, gvals in enumerate(groups):
+                ann = typing.Literal[tuple(gvals)]
+                glb = {"ANN": ann}
+                exec(f"def m{i}(x: ANN): return {i}\n", glb)
+                ov.register(glb[f"m{i}"])
+                tys.append(normalize_type(ann, glb[f"m{i}"]))
+            glb = {}
+            exec("def other(x: object): return -1\n", glb)
+            ov.register(glb["other"])
+        except Exception as e:  # noqa
+            o["viol"].append({"law": "a function with Literal methods over unusual values cannot be defined", "error": f"{type(e).__name__}: {e}"[:200], "values": repr(groups)[:200], "kind": "exotic-literal"})
+            continue
+        for v in probes:
+            o["n"] += 1
+            acc = [i for i, T in enumerate(tys) if isinstance(v, T)]
+            if acc:
+                o["nontrivial"] += 1
+            got = outcome(ov, v)
+            # (several accepting methods: the more specific bound wins or the call is ambiguous — C10's business)
+            ok = (got == ("ran", acc[0])) if len(acc) == 1 else (got == ("ran", -1)) if not acc else (got[0] == "ambiguous" or (got[0] == "ran" and got[1] in acc))
+            if not ok:
+                o["viol"].append({"law": "a Literal method over unusual values does not run exactly for the values isinstance accepts", "values": repr(groups)[:200], "value": repr(v)[:60], "isinstance_accepts": acc, "outcome": list(got), "kind": "exotic-literal"})
+                break
+
+
 def run_oracles(seed, n, out):
     rng = random.Random(seed)
 
     def orc(name):
         return out["oracles"].setdefault(name, {"n": 0, "nontrivial": 0, "viol": [], "known": {}})
+
+    exotic_literals(rng, orc)
 
     for _ in range(n):
         w = make_world(rng, nuser=rng.randint(2, 4))
